@@ -132,7 +132,7 @@ Proof.
                  (map (bswap 32) (map (V rho (ck_t0 sha256_objs)) (map N.of_nat (seq 0 16))))) ) as (st' & Hex & Hget);
     [| | |exact Hc|].
   - (* the variable table is well formed: every input is below its declared bound *)
-    intros i n b Hi.
+    intros i nd bd Hi.
     do 40 (destruct i as [|i]; [cbn in Hi; inversion Hi; subst; split; [reflexivity|vm_compute; assumption]|]).
     destruct i; discriminate Hi.
   - split; [repeat constructor|]. unfold inb. vm_compute. repeat constructor.
